@@ -372,3 +372,32 @@ def edges_contradicting(bi, phi_term, def_block, labels):
                         out.append((e["block"], tb))
         subj = ("field", ("variant", subj, lab), 0)
     return out
+
+
+# ------------------------------------------------------------------------------------------------
+# the "take the value out of a field" idiom in its three spellings
+# ------------------------------------------------------------------------------------------------
+
+class Take:
+    """`mem::swap(&mut fresh, field)` (taken = the local), `mem::replace(field, fresh)` or
+    `mem::take(field)` (taken = the call result)."""
+
+    def __init__(self, site, taken):
+        self.site = site
+        self.block = site.block
+        self.taken = taken
+        self.where = site.where
+
+
+def takes_of(bi, field_term):
+    out = []
+    for s in bi.sites:
+        if s.key == ("core::mem::swap", "swap") and field_term in (s.arg(0), s.arg(1)):
+            out.append(Take(s, s.arg(1) if s.arg(0) == field_term else s.arg(0)))
+        elif s.key in (("core::mem::replace", "replace"), ("core::mem::take", "take")) and s.arg(0) == field_term:
+            out.append(Take(s, s.term))
+    return out
+
+
+def all_take_blocks(bi):
+    return [s.block for s in bi.sites if s.key in (("core::mem::swap", "swap"), ("core::mem::replace", "replace"), ("core::mem::take", "take"))]
